@@ -2,8 +2,43 @@
 
 package main
 
-import "time"
+import (
+	"os"
+	"strings"
+	"time"
+)
+
+func c01Run(f []string) string {
+	if f[0] == "ptrace" {
+		return pipeTraceRun(f)
+	}
+	return pipeRun(f)
+}
+
+func c01Gen(r *Rand, tier string) []string {
+	if os.Getenv("VERIF_C01_ONLY") == "trace" { // stress runs of the trace tie alone
+		return pipeTraceGen(r, tier)
+	}
+	out := pipeGen(r, tier)
+	return append(out, pipeTraceGen(r, tier)...)
+}
+
+func c01Stats(cases []string) map[string]int {
+	var pipe []string
+	st := map[string]int{}
+	for _, c := range cases {
+		if strings.HasPrefix(c, "ptrace ") {
+			traceStats(st, c)
+		} else {
+			pipe = append(pipe, c)
+		}
+	}
+	for k, v := range pipeStats(pipe) {
+		st[k] = v
+	}
+	return st
+}
 
 func init() {
-	Register("C01", &Prop{Gen: pipeGen, Run: pipeRun, Stats: pipeStats, Timeout: 60 * time.Second})
+	Register("C01", &Prop{Gen: c01Gen, Run: c01Run, Stats: c01Stats, Timeout: 60 * time.Second})
 }
